@@ -183,3 +183,35 @@ def handle_type_accepted(close_fi, cls_name):
                 return True, True, None
             last_bad = bad
     return found, False, (last_bad if found else None)
+
+
+# ------------------------------------------------------------------ spelling-independent facts
+
+def emptiness(e, pol):
+    """src of the collection X if (e, pol) says X is empty: `not X`, `len(X) == 0`, `not len(X) > 0`, `len(X) < 1`, `not X` ...; else None"""
+    if isinstance(e, ast.UnaryOp) and isinstance(e.op, ast.Not):
+        return emptiness(e.operand, not pol)
+    if isinstance(e, (ast.Name, ast.Attribute)):
+        return src(e) if not pol else None
+    if isinstance(e, ast.Compare) and len(e.ops) == 1 and isinstance(e.left, ast.Call) and callee_name(e.left) == "len" and len(e.left.args) == 1 and \
+            isinstance(e.comparators[0], ast.Constant) and isinstance(e.comparators[0].value, int):
+        k, op, x = e.comparators[0].value, e.ops[0], src(e.left.args[0])
+        empty_when_true = (isinstance(op, ast.Eq) and k == 0) or (isinstance(op, ast.Lt) and k == 1) or (isinstance(op, ast.LtE) and k == 0)
+        empty_when_false = (isinstance(op, ast.Gt) and k == 0) or (isinstance(op, ast.GtE) and k == 1) or (isinstance(op, ast.NotEq) and k == 0)
+        if (empty_when_true and pol) or (empty_when_false and not pol):
+            return x
+    return None
+
+
+def justified(facts, fnode, accept, depth=2):
+    """some fact is accepted by accept(expr, polarity); a true boolean local counts when EVERY value it is ever assigned in fnode
+    implies an accepted fact (flag variables set from the real conditions)"""
+    from .flow import split_conj
+    for e, pol in facts:
+        if accept(e, pol):
+            return True
+        if depth and pol and isinstance(e, ast.Name):
+            defs = [a for a in walk_local(fnode) if isinstance(a, ast.Assign) and any(isinstance(t, ast.Name) and t.id == e.id for t in a.targets)]
+            if defs and all(justified(split_conj(d.value, True), fnode, accept, depth - 1) for d in defs):
+                return True
+    return False
